@@ -2,6 +2,7 @@ import ServiceModel.Properties.C19
 import ServiceModel.Properties.C20
 import ServiceModel.Properties.C17
 import ServiceModel.Properties.C10
+import ServiceModel.Properties.C12
 /-!
 # Non-vacuity: the hypotheses of the property theorems are met by concrete, non-trivial reachable states
 
@@ -122,5 +123,32 @@ def sgBefore : State × Ghost := runG (genesis cfg0 p0 1 0, Ghost.init) (ops2 ++
 example : sgBefore.1.height = 5 ∧ get sgBefore.2.last ⟨7, 0⟩ = some 1 := by decide
 example : (gstep ⟨[(⟨7, 0⟩, 2)], false⟩ sgBefore.1 (.endblock 5)).bad = true := by decide
 example : get (gstep sgBefore.2 sgBefore.1 (.pause ⟨7, 0⟩ "u")).last ⟨7, 0⟩ = none := by decide
+
+/-- C12, counted run: a context created by the module `oracle`; its batch is answered, the callback is invoked once -/
+def runC (sn : State × (CtxId → Nat)) (ops : List Op) : State × (CtxId → Nat) :=
+  ops.foldl (fun sn o => ((step sn.1 o).1, fun c => sn.2 c + cbCount c (step sn.1 o).2.2)) sn
+
+theorem creach_of_wfAll {cfg : Config} {p : Params} {h0 t0 : Int} :
+    ∀ (ops : List Op) (s : State) (n : CtxId → Nat), CReach cfg p h0 t0 s n → wfAll s ops = true →
+      CReach cfg p h0 t0 (runC (s, n) ops).1 (runC (s, n) ops).2 := by
+  intro ops
+  induction ops with
+  | nil => intro s n hs _; exact hs
+  | cons op t ih =>
+    intro s n hs hw
+    simp only [wfAll, Bool.and_eq_true, decide_eq_true_eq] at hw
+    exact ih _ _ (CReach.step op hs hw.1) hw.2
+
+def opsM : List Op :=
+  [.fund "o" 1000, .fund "u" 100, .define "svc" "o" true, .bind "svc" "p" "o" (some 100) (some text0) 1,
+   .modcreate ⟨8, 0⟩ "oracle" "svc" ["p"] "u" (some 10) 2 false true 4 3 true true 1, .endblock 5]
+def rM : ReqId := { ctx := ⟨8, 0⟩, batch := 1, height := 1, index := 0 }
+def snM1 : State × (CtxId → Nat) := runC (genesis cfg0 p0 1 0, fun _ => 0) opsM
+def snM2 : State × (CtxId → Nat) := runC (genesis cfg0 p0 1 0, fun _ => 0) (opsM ++ [.respond rM "p" 200 .valid])
+
+example : CReach cfg0 p0 1 0 snM2.1 snM2.2 := creach_of_wfAll _ _ _ CReach.init (by decide)
+/-- batch 1 in flight, no callback yet; after the response: completed, one callback -/
+example : (get snM1.1.ctxs ⟨8, 0⟩).map (fun x => (x.batch, x.bstate)) = some (1, .running) ∧ snM1.2 ⟨8, 0⟩ = 0 := by decide
+example : (get snM2.1.ctxs ⟨8, 0⟩).map (fun x => (x.batch, x.bstate)) = some (1, .completed) ∧ snM2.2 ⟨8, 0⟩ = 1 := by decide
 
 end SM.NonVacuity
